@@ -54,8 +54,7 @@ func (h *TwoPartyHandler) Result() (interface{}, error) {
 }
 
 func (h *TwoPartyHandler) Listen() <-chan *Message {
-	h.mtx.Lock()
-	defer h.mtx.Unlock()
+	// h.out is never reassigned; see MultiHandler.Listen for why the lock must not be taken here.
 	return h.out
 }
 
